@@ -23,7 +23,8 @@ MIN_COUNTERS = dict(quick={'shanks_asserted': 5000, 'honesty_asserted': 5000, 'b
                            'array_equiv_asserted': 50},
                     thorough={'shanks_asserted': 100000, 'honesty_asserted': 100000,
                               'internal_calls_observed': 500})
-RULE = ('cases: geometric triples fl(L + a q^k) with L,a log-uniform over 30 decades, q in (-50,50) '
+RULE = ('Integer-valued triples handed over as Python ints, numpy integers, integer arrays, lists, plain floats or a mix. ' 
+        'cases: geometric triples fl(L + a q^k) with L,a log-uniform over 30 decades, q in (-50,50) '
         'minus neighbourhoods of 0 and 1; all 14^3 triples of a special-float table; random triples; '
         'arrays of random shape (elementwise and symmetric=True); internal calls observed inside '
         'Derivative/Limit runs. non-trivial+distinct = (decade of a/L, q bucket, branch taken) for '
